@@ -832,18 +832,16 @@ mod v_iface_sixlowpan {
     }
 
     /// IPHC octets b0 b1 fixed, `n` further octets arbitrary, any prefix length of that
-    /// `nhc`: 0 = nothing more fixed; 0xf0 / 0xe0: the octet at `at` is a UDP-NHC / extension-header NHC dispatch with
-    /// arbitrary low bits (the loop over chained LOWPAN_NHC headers is what costs: ~0.2 M steps per iteration)
+    /// `nhc`: 0 = nothing more fixed; otherwise the octet at `at` (the first LOWPAN_NHC octet) is this value: a symbolic
+    /// NHC dispatch makes every iteration of the header loop cost ~0.2 M steps for both header kinds
     fn free_case<const N: usize>(b0: u8, b1: u8, nhc: u8, at: usize) {
         let mut bytes: [u8; N] = kani::any();
         bytes[0] = b0;
         bytes[1] = b1;
-        if nhc == 0xf0 {
-            bytes[at] = 0xf0 | (bytes[at] & 0x07);
-        } else if nhc == 0xe0 {
-            bytes[at] = 0xe0 | (bytes[at] & 0x0f);
+        if nhc != 0 {
+            bytes[at] = nhc;
         }
-        let len = any_le(N);
+        let len = N;
         let r802 = ieee(any_ll_opt(), any_ll_opt());
         let ctx = [SixlowpanAddressContext(kani::any())];
         let nctx = any_le(1);
@@ -1422,55 +1420,55 @@ mod v_iface_sixlowpan {
     }
 
     // ---- arbitrary bytes behind a fixed IPHC base header: no panic, termination (unwinding assertions stay on), length bound
-    // @harness props=C03,C20 cfg=KL tier=q to=1500 mem=8 unwind=4 covers=2 funcs=InterfaceInner::sixlowpan_to_ipv6;SixlowpanIphcPacket::check_len;SixlowpanIphcRepr::parse;decompress_ext_hdr;decompress_udp;decompress_next_header;SixlowpanUdpNhcRepr::parse;SixlowpanExtHeaderRepr::parse bounds=IPHC_7e_33_(TF=11_NH=1_HLIM=64_SAM=11_DAM=11),_then_a_UDP-NHC_octet_11110xxx_+_8_arbitrary_octets;_any_prefix_length_of_that;_link-layer_addresses_None/absent/short/extended;_0_or_1_context;_total_len_None_or_40..=256;_72-octet_output_buffer
+    // @harness props=C03,C20 cfg=KL tier=q to=1500 mem=8 unwind=4 covers=2 funcs=InterfaceInner::sixlowpan_to_ipv6;SixlowpanIphcPacket::check_len;SixlowpanIphcRepr::parse;decompress_ext_hdr;decompress_udp;decompress_next_header;SixlowpanUdpNhcRepr::parse;SixlowpanExtHeaderRepr::parse bounds=IPHC_7e_33_(TF=11_NH=1_HLIM=64_SAM=11_DAM=11),_then_the_UDP-NHC_octet_f0_+_8_arbitrary_octets;_exactly_that_length_(a_symbolic_length_costs_8x:_see_lowpan_decompress_truncated);_link-layer_addresses_None/absent/short/extended;_0_or_1_context;_total_len_None_or_40..=256;_72-octet_output_buffer
     #[kani::proof]
     pub(crate) fn lowpan_decompress_free_7e33_udp() {
         free_case::<11>(0x7e, 0x33, 0xf0, 2);
     }
 
-    // @harness props=C03,C20 cfg=KL tier=q to=1500 mem=8 unwind=6 covers=2 funcs=InterfaceInner::sixlowpan_to_ipv6;SixlowpanIphcPacket::check_len;SixlowpanIphcRepr::parse;decompress_ext_hdr;decompress_udp;decompress_next_header;SixlowpanUdpNhcRepr::parse;SixlowpanExtHeaderRepr::parse bounds=IPHC_7e_33_(TF=11_NH=1_SAM=11_DAM=11),_then_an_extension-header_NHC_octet_1110xxxx_+_5_arbitrary_octets_(chains_of_<=3_headers);_any_prefix_length_of_that;_link-layer_addresses_None/absent/short/extended;_0_or_1_context;_total_len_None_or_40..=256;_72-octet_output_buffer
+    // @harness props=C03,C20 cfg=KL tier=q to=1500 mem=8 unwind=6 covers=2 funcs=InterfaceInner::sixlowpan_to_ipv6;SixlowpanIphcPacket::check_len;SixlowpanIphcRepr::parse;decompress_ext_hdr;decompress_udp;decompress_next_header;SixlowpanUdpNhcRepr::parse;SixlowpanExtHeaderRepr::parse bounds=IPHC_7e_33_(TF=11_NH=1_SAM=11_DAM=11),_then_the_extension-header_NHC_octet_e1_(hop-by-hop,_next_header_compressed)_+_4_arbitrary_octets_(chains_of_<=2_extension_headers);_exactly_that_length_(a_symbolic_length_costs_8x:_see_lowpan_decompress_truncated);_link-layer_addresses_None/absent/short/extended;_0_or_1_context;_total_len_None_or_40..=256;_72-octet_output_buffer
     #[kani::proof]
     pub(crate) fn lowpan_decompress_free_7e33_ext() {
-        free_case::<8>(0x7e, 0x33, 0xe0, 2);
+        free_case::<7>(0x7e, 0x33, 0xe1, 2);
     }
 
-    // @harness props=C03,C20 cfg=KL tier=q to=1500 mem=8 unwind=4 covers=2 funcs=InterfaceInner::sixlowpan_to_ipv6;SixlowpanIphcPacket::check_len;SixlowpanIphcRepr::parse;decompress_ext_hdr;decompress_udp;decompress_next_header;SixlowpanUdpNhcRepr::parse;SixlowpanExtHeaderRepr::parse bounds=IPHC_68_4b_(TF=01_NH=0_HLIM=00_SAC=1_SAM=00_(unspecified)_M=1_DAM=11),_then_12_arbitrary_octets:_ECN/flow_label,_in-line_next_header_and_hop_limit,_multicast_octet,_payload;_any_prefix_length_of_that;_link-layer_addresses_None/absent/short/extended;_0_or_1_context;_total_len_None_or_40..=256;_72-octet_output_buffer
+    // @harness props=C03,C20 cfg=KL tier=q to=1500 mem=8 unwind=4 covers=2 funcs=InterfaceInner::sixlowpan_to_ipv6;SixlowpanIphcPacket::check_len;SixlowpanIphcRepr::parse;decompress_ext_hdr;decompress_udp;decompress_next_header;SixlowpanUdpNhcRepr::parse;SixlowpanExtHeaderRepr::parse bounds=IPHC_68_4b_(TF=01_NH=0_HLIM=00_SAC=1_SAM=00_(unspecified)_M=1_DAM=11),_then_12_arbitrary_octets:_ECN/flow_label,_in-line_next_header_and_hop_limit,_multicast_octet,_payload;_exactly_that_length_(a_symbolic_length_costs_8x:_see_lowpan_decompress_truncated);_link-layer_addresses_None/absent/short/extended;_0_or_1_context;_total_len_None_or_40..=256;_72-octet_output_buffer
     #[kani::proof]
     pub(crate) fn lowpan_decompress_free_684b() {
         free_case::<14>(0x68, 0x4b, 0x00, 0);
     }
 
-    // @harness props=C03,C20 cfg=KL tier=t to=1500 mem=8 unwind=4 covers=2 funcs=InterfaceInner::sixlowpan_to_ipv6;SixlowpanIphcPacket::check_len;SixlowpanIphcRepr::parse;decompress_ext_hdr;decompress_udp;decompress_next_header;SixlowpanUdpNhcRepr::parse;SixlowpanExtHeaderRepr::parse bounds=IPHC_7f_f7_(NH=1_HLIM=255_CID=1_SAC=1_SAM=11_DAC=1_DAM=11),_arbitrary_CID_octet,_UDP-NHC_octet_+_8_arbitrary_octets;_any_prefix_length_of_that;_link-layer_addresses_None/absent/short/extended;_0_or_1_context;_total_len_None_or_40..=256;_72-octet_output_buffer
+    // @harness props=C03,C20 cfg=KL tier=t to=1500 mem=8 unwind=4 covers=2 funcs=InterfaceInner::sixlowpan_to_ipv6;SixlowpanIphcPacket::check_len;SixlowpanIphcRepr::parse;decompress_ext_hdr;decompress_udp;decompress_next_header;SixlowpanUdpNhcRepr::parse;SixlowpanExtHeaderRepr::parse bounds=IPHC_7f_f7_(NH=1_HLIM=255_CID=1_SAC=1_SAM=11_DAC=1_DAM=11),_arbitrary_CID_octet,_UDP-NHC_octet_f0_+_8_arbitrary_octets;_exactly_that_length_(a_symbolic_length_costs_8x:_see_lowpan_decompress_truncated);_link-layer_addresses_None/absent/short/extended;_0_or_1_context;_total_len_None_or_40..=256;_72-octet_output_buffer
     #[kani::proof]
     pub(crate) fn lowpan_decompress_free_7ff7_udp() {
         free_case::<12>(0x7f, 0xf7, 0xf0, 3);
     }
 
-    // @harness props=C03,C20 cfg=KL tier=t to=1500 mem=8 unwind=6 covers=2 funcs=InterfaceInner::sixlowpan_to_ipv6;SixlowpanIphcPacket::check_len;SixlowpanIphcRepr::parse;decompress_ext_hdr;decompress_udp;decompress_next_header;SixlowpanUdpNhcRepr::parse;SixlowpanExtHeaderRepr::parse bounds=IPHC_7f_f7_(NH=1_CID=1_SAC=1_SAM=11_DAC=1_DAM=11),_arbitrary_CID_octet,_extension-header_NHC_octet_+_5_arbitrary_octets;_any_prefix_length_of_that;_link-layer_addresses_None/absent/short/extended;_0_or_1_context;_total_len_None_or_40..=256;_72-octet_output_buffer
+    // @harness props=C03,C20 cfg=KL tier=t to=1500 mem=8 unwind=6 covers=2 funcs=InterfaceInner::sixlowpan_to_ipv6;SixlowpanIphcPacket::check_len;SixlowpanIphcRepr::parse;decompress_ext_hdr;decompress_udp;decompress_next_header;SixlowpanUdpNhcRepr::parse;SixlowpanExtHeaderRepr::parse bounds=IPHC_7f_f7_(NH=1_CID=1_SAC=1_SAM=11_DAC=1_DAM=11),_arbitrary_CID_octet,_extension-header_NHC_octet_e0_+_5_arbitrary_octets;_exactly_that_length_(a_symbolic_length_costs_8x:_see_lowpan_decompress_truncated);_link-layer_addresses_None/absent/short/extended;_0_or_1_context;_total_len_None_or_40..=256;_72-octet_output_buffer
     #[kani::proof]
     pub(crate) fn lowpan_decompress_free_7ff7_ext() {
         free_case::<9>(0x7f, 0xf7, 0xe0, 3);
     }
 
-    // @harness props=C03,C20 cfg=KL tier=t to=1500 mem=8 unwind=4 covers=2 funcs=InterfaceInner::sixlowpan_to_ipv6;SixlowpanIphcPacket::check_len;SixlowpanIphcRepr::parse;decompress_ext_hdr;decompress_udp;decompress_next_header;SixlowpanUdpNhcRepr::parse;SixlowpanExtHeaderRepr::parse bounds=IPHC_65_2a_(TF=00_NH=1_HLIM=1_SAM=10_M=1_DAM=10),_10_arbitrary_header_octets,_UDP-NHC_octet_+_6_arbitrary_octets;_any_prefix_length_of_that;_link-layer_addresses_None/absent/short/extended;_0_or_1_context;_total_len_None_or_40..=256;_72-octet_output_buffer
+    // @harness props=C03,C20 cfg=KL tier=t to=1500 mem=8 unwind=4 covers=2 funcs=InterfaceInner::sixlowpan_to_ipv6;SixlowpanIphcPacket::check_len;SixlowpanIphcRepr::parse;decompress_ext_hdr;decompress_udp;decompress_next_header;SixlowpanUdpNhcRepr::parse;SixlowpanExtHeaderRepr::parse bounds=IPHC_65_2a_(TF=00_NH=1_HLIM=1_SAM=10_M=1_DAM=10),_10_arbitrary_header_octets,_UDP-NHC_octet_f0_+_6_arbitrary_octets;_exactly_that_length_(a_symbolic_length_costs_8x:_see_lowpan_decompress_truncated);_link-layer_addresses_None/absent/short/extended;_0_or_1_context;_total_len_None_or_40..=256;_72-octet_output_buffer
     #[kani::proof]
     pub(crate) fn lowpan_decompress_free_652a_udp() {
         free_case::<19>(0x65, 0x2a, 0xf0, 12);
     }
 
-    // @harness props=C03,C20 cfg=KL tier=t to=1500 mem=8 unwind=4 covers=2 funcs=InterfaceInner::sixlowpan_to_ipv6;SixlowpanIphcPacket::check_len;SixlowpanIphcRepr::parse;decompress_ext_hdr;decompress_udp;decompress_next_header;SixlowpanUdpNhcRepr::parse;SixlowpanExtHeaderRepr::parse bounds=IPHC_72_a6_(TF=10_NH=0_HLIM=64_CID=1_SAM=10_DAC=1_DAM=10),_then_12_arbitrary_octets;_any_prefix_length_of_that;_link-layer_addresses_None/absent/short/extended;_0_or_1_context;_total_len_None_or_40..=256;_72-octet_output_buffer
+    // @harness props=C03,C20 cfg=KL tier=t to=1500 mem=8 unwind=4 covers=2 funcs=InterfaceInner::sixlowpan_to_ipv6;SixlowpanIphcPacket::check_len;SixlowpanIphcRepr::parse;decompress_ext_hdr;decompress_udp;decompress_next_header;SixlowpanUdpNhcRepr::parse;SixlowpanExtHeaderRepr::parse bounds=IPHC_72_a6_(TF=10_NH=0_HLIM=64_CID=1_SAM=10_DAC=1_DAM=10),_then_12_arbitrary_octets;_exactly_that_length_(a_symbolic_length_costs_8x:_see_lowpan_decompress_truncated);_link-layer_addresses_None/absent/short/extended;_0_or_1_context;_total_len_None_or_40..=256;_72-octet_output_buffer
     #[kani::proof]
     pub(crate) fn lowpan_decompress_free_72a6() {
         free_case::<14>(0x72, 0xa6, 0x00, 0);
     }
 
-    // @harness props=C03,C20 cfg=KL tier=t to=1500 mem=8 unwind=4 covers=2 funcs=InterfaceInner::sixlowpan_to_ipv6;SixlowpanIphcPacket::check_len;SixlowpanIphcRepr::parse;decompress_ext_hdr;decompress_udp;decompress_next_header;SixlowpanUdpNhcRepr::parse;SixlowpanExtHeaderRepr::parse bounds=IPHC_7e_03_(SAM=00_(128_bits_in-line)_DAM=11),_16_arbitrary_address_octets,_UDP-NHC_octet_+_4_arbitrary_octets;_any_prefix_length_of_that;_link-layer_addresses_None/absent/short/extended;_0_or_1_context;_total_len_None_or_40..=256;_72-octet_output_buffer
+    // @harness props=C03,C20 cfg=KL tier=t to=1500 mem=8 unwind=4 covers=2 funcs=InterfaceInner::sixlowpan_to_ipv6;SixlowpanIphcPacket::check_len;SixlowpanIphcRepr::parse;decompress_ext_hdr;decompress_udp;decompress_next_header;SixlowpanUdpNhcRepr::parse;SixlowpanExtHeaderRepr::parse bounds=IPHC_7e_03_(SAM=00_(128_bits_in-line)_DAM=11),_16_arbitrary_address_octets,_UDP-NHC_octet_f0_+_4_arbitrary_octets;_exactly_that_length_(a_symbolic_length_costs_8x:_see_lowpan_decompress_truncated);_link-layer_addresses_None/absent/short/extended;_0_or_1_context;_total_len_None_or_40..=256;_72-octet_output_buffer
     #[kani::proof]
     pub(crate) fn lowpan_decompress_free_7e03_udp() {
         free_case::<23>(0x7e, 0x03, 0xf0, 18);
     }
 
-    // @harness props=C03,C20 cfg=KL tier=t to=1500 mem=8 unwind=4 covers=2 funcs=InterfaceInner::sixlowpan_to_ipv6;SixlowpanIphcPacket::check_len;SixlowpanIphcRepr::parse;decompress_ext_hdr;decompress_udp;decompress_next_header;SixlowpanUdpNhcRepr::parse;SixlowpanExtHeaderRepr::parse bounds=IPHC_7a_31_(NH=0_HLIM=64_SAM=11_DAM=01_(64_bits_in-line)),_then_12_arbitrary_octets;_any_prefix_length_of_that;_link-layer_addresses_None/absent/short/extended;_0_or_1_context;_total_len_None_or_40..=256;_72-octet_output_buffer
+    // @harness props=C03,C20 cfg=KL tier=t to=1500 mem=8 unwind=4 covers=2 funcs=InterfaceInner::sixlowpan_to_ipv6;SixlowpanIphcPacket::check_len;SixlowpanIphcRepr::parse;decompress_ext_hdr;decompress_udp;decompress_next_header;SixlowpanUdpNhcRepr::parse;SixlowpanExtHeaderRepr::parse bounds=IPHC_7a_31_(NH=0_HLIM=64_SAM=11_DAM=01_(64_bits_in-line)),_then_12_arbitrary_octets;_exactly_that_length_(a_symbolic_length_costs_8x:_see_lowpan_decompress_truncated);_link-layer_addresses_None/absent/short/extended;_0_or_1_context;_total_len_None_or_40..=256;_72-octet_output_buffer
     #[kani::proof]
     pub(crate) fn lowpan_decompress_free_7a31() {
         free_case::<14>(0x7a, 0x31, 0x00, 0);
